@@ -231,6 +231,9 @@ func runWorkers(u *unit, bin, prop, outDir string, seed uint64, workers int, bud
 				"VERIF_KNOWN="+filepath.Join(verifDir, "known_findings.json"),
 				"GOMAXPROCS="+gmp, "GODEBUG=randseednop=0,asyncpreemptoff=1", "GOTRACEBACK=all")
 			cmd.Env = append(cmd.Env, extraEnv...)
+			if u.Race {
+				cmd.Env = append(cmd.Env, "GORACE=exitcode=0 history_size=3", "VERIF_RACE=1")
+			}
 			logPath := filepath.Join(outDir, fmt.Sprintf("worker-%d.log", w))
 			lf, _ := os.Create(logPath)
 			cmd.Stdout, cmd.Stderr = lf, lf
@@ -373,6 +376,7 @@ func main() {
 	workersF := fs.Int("workers", 0, "number of worker processes")
 	keep := fs.Bool("keep", false, "keep scratch directory")
 	raw := fs.Bool("raw", false, "with --replay: ignore known_findings.json (show the first failing point even if it is a recorded finding)")
+	selftest := fs.Bool("selftest", false, "determinism self-test: run the same seeds in many processes at GOMAXPROCS 1/4/16 and diff the per-case trace hashes")
 	noEvidence := fs.Bool("no-evidence", false, "do not write the evidence file")
 	_ = fs.Parse(os.Args[2:])
 	if *tier == "" {
@@ -421,6 +425,10 @@ func main() {
 	start := time.Now()
 	fmt.Printf("check: property=%s tier=%s seed=%d\n", prop, *tier, seed)
 
+	if *selftest {
+		code := runSelftest(prop, pd, seed, scratchRoot)
+		exit(code)
+	}
 	if *replay != "" {
 		if abs, err := filepath.Abs(*replay); err == nil {
 			*replay = abs
@@ -435,6 +443,33 @@ func main() {
 		}
 		if err := json.Unmarshal(rb, &rf); err != nil {
 			fatal2("bad replay file: %v", err)
+		}
+		if rf.Engine == "race" {
+			var rr raceReplay
+			_ = json.Unmarshal(rb, &rr)
+			for i := range pd.Units {
+				u := &pd.Units[i]
+				if u.Name != rr.Unit {
+					continue
+				}
+				scratch := filepath.Join(scratchRoot, u.Name)
+				_ = os.MkdirAll(scratch, 0o755)
+				bin, _ := buildUnit(u, scratch, os.Stdout)
+				budget := time.Duration(rr.BudgetS) * time.Second
+				if budget <= 0 {
+					budget = 20 * time.Second
+				}
+				fmt.Printf("check: re-running %s under the race detector: %d workers x %v, seed %d\n", u.Name, rr.Workers, budget, rr.Seed)
+				runWorkers(u, bin, prop, filepath.Join(scratch, "out"), rr.Seed, rr.Workers, budget, []string{"VERIF_TIER=quick"})
+				if got := scanRaces(prop, filepath.Join(scratch, "out"), rr.Workers); got != nil {
+					fmt.Printf("data-race [%s]:\n%s\n", got.Failure.Sig, got.Failure.Msg)
+					fmt.Printf("VIOLATION property=%s replay=%s\n", prop, *replay)
+					exit(1)
+				}
+				fmt.Println("check: no race report this time (the -race tier does not replay exactly)")
+				exit(0)
+			}
+			fatal2("no unit %q", rr.Unit)
 		}
 		for i := range pd.Units {
 			u := &pd.Units[i]
@@ -465,6 +500,7 @@ func main() {
 	}
 
 	var runs []unitRun
+	raceViolation := ""
 	for i := range pd.Units {
 		u := &pd.Units[i]
 		scratch := filepath.Join(scratchRoot, u.Name)
@@ -493,6 +529,18 @@ func main() {
 		fmt.Printf("check: running %s: %d workers x %v\n", u.Name, workers, budget)
 		oc := runWorkers(u, bin, prop, filepath.Join(scratch, "out"), seed, workers, budget, env)
 		runs = append(runs, unitRun{u, oc, ov, bin})
+		if u.Race && oc.violation == nil {
+			if rr := scanRaces(prop, filepath.Join(scratch, "out"), workers); rr != nil {
+				rr.Unit, rr.Seed, rr.BudgetS, rr.Workers = u.Name, seed, int(budget.Seconds()), workers
+				dst := filepath.Join(verifDir, "replays", fmt.Sprintf("%s-race-s%d-w%d.json", prop, seed, rr.Worker))
+				b, _ := json.MarshalIndent(rr, "", " ")
+				_ = os.MkdirAll(filepath.Dir(dst), 0o755)
+				_ = os.WriteFile(dst, b, 0o644)
+				fmt.Printf("data-race [%s]:\n%s\n", rr.Failure.Sig, rr.Failure.Msg)
+				raceViolation = fmt.Sprintf("VIOLATION property=%s replay=%s", prop, dst)
+				break
+			}
+		}
 		if len(oc.crashed) > 0 && oc.violation == nil {
 			for _, c := range oc.crashed {
 				fmt.Fprintln(os.Stderr, "check: worker crashed or hung:", c)
@@ -577,6 +625,10 @@ func main() {
 	if final != "" {
 		fmt.Println(final)
 	}
+	if raceViolation != "" {
+		fmt.Println(raceViolation)
+		code = 1
+	}
 	exit(code)
 }
 
@@ -585,4 +637,196 @@ type unitRun struct {
 	oc  *runOutcome
 	ov  overlayResult
 	bin string
+}
+
+// runSelftest proves replay determinism for every unit of a property: the same seed is
+// executed in 30 separate processes (10 each at GOMAXPROCS 1, 4 and 16) with a fixed
+// number of cases and the per-case trace-hash logs are compared. Any divergence among the
+// GOMAXPROCS=1 processes (the configuration every deterministic check uses) fails.
+func runSelftest(prop string, pd *propDef, seed uint64, scratchRoot string) int {
+	bad := 0
+	for i := range pd.Units {
+		u := &pd.Units[i]
+		if u.Race {
+			continue
+		}
+		scratch := filepath.Join(scratchRoot, u.Name)
+		_ = os.MkdirAll(scratch, 0o755)
+		bin, _ := buildUnit(u, scratch, os.Stdout)
+		type res struct {
+			gmp  int
+			rep  int
+			data string
+		}
+		var mu sync.Mutex
+		var all []res
+		var wg sync.WaitGroup
+		sem := make(chan struct{}, 15)
+		for _, gmp := range []int{1, 4, 16} {
+			for rep := 0; rep < 10; rep++ {
+				wg.Add(1)
+				go func(gmp, rep int) {
+					defer wg.Done()
+					sem <- struct{}{}
+					defer func() { <-sem }()
+					out := filepath.Join(scratch, fmt.Sprintf("st-%d-%d", gmp, rep))
+					_ = os.MkdirAll(out, 0o755)
+					cmd := exec.Command(bin, "-test.run", "^TestVerif$", "-test.timeout", "0", "-test.count", "1")
+					cmd.Dir = filepath.Join(repoDir, u.Module, u.Package)
+					hl := filepath.Join(out, "hashes.log")
+					cmd.Env = append(os.Environ(), "VERIF_PROP="+prop, "VERIF_OUT="+out, "VERIF_WORKER=0",
+						"VERIF_SEED="+strconv.FormatUint(seed, 10), "VERIF_BUDGET_MS=600000", "VERIF_MAXCASES=400",
+						"VERIF_HASHLOG="+hl, "VERIF_KNOWN="+filepath.Join(verifDir, "known_findings.json"),
+						"GOMAXPROCS="+strconv.Itoa(gmp), "GODEBUG=randseednop=0,asyncpreemptoff=1")
+					if len(u.Engines) > 0 {
+						cmd.Env = append(cmd.Env, "VERIF_ENGINES="+strings.Join(u.Engines, ","))
+					}
+					if gmp == 1 {
+						td := filepath.Join(out, "traces")
+						_ = os.MkdirAll(td, 0o755)
+						cmd.Env = append(cmd.Env, "VERIF_TRACEDIR="+td)
+					}
+					_ = cmd.Run()
+					b, _ := os.ReadFile(hl)
+					mu.Lock()
+					all = append(all, res{gmp, rep, string(b)})
+					mu.Unlock()
+				}(gmp, rep)
+			}
+		}
+		wg.Wait()
+		var ref string
+		for _, r := range all {
+			if r.gmp == 1 && r.rep == 0 {
+				ref = r.data
+			}
+		}
+		div := map[int]int{}
+		for _, r := range all {
+			if r.data != ref {
+				div[r.gmp]++
+			}
+		}
+		n := strings.Count(ref, "\n")
+		fmt.Printf("selftest: unit %s: %d cases per process, 30 processes; diverging from the GOMAXPROCS=1 reference: gomaxprocs1=%d/10 gomaxprocs4=%d/10 gomaxprocs16=%d/10\n",
+			u.Name, n, div[1], div[4], div[16])
+		if n == 0 || div[1] > 0 {
+			bad++
+			// show where the first diverging GOMAXPROCS=1 process departs from the reference
+			for _, r := range all {
+				if r.gmp != 1 || r.data == ref {
+					continue
+				}
+				a, b := strings.Split(ref, "\n"), strings.Split(r.data, "\n")
+				for i := 0; i < len(a) && i < len(b); i++ {
+					if a[i] != b[i] {
+						fa := filepath.Join(scratch, "st-1-0", "traces", strconv.Itoa(i+1)+".trace")
+						fb := filepath.Join(scratch, fmt.Sprintf("st-1-%d", r.rep), "traces", strconv.Itoa(i+1)+".trace")
+						out, _ := exec.Command("diff", fa, fb).CombinedOutput()
+						fmt.Printf("selftest: case %d diverges between rep 0 and rep %d; diff of scheduler traces:\n%s\n", i+1, r.rep, tail(string(out), 40))
+						break
+					}
+				}
+				break
+			}
+		}
+	}
+	if bad > 0 {
+		fmt.Println("selftest: FAILED (non-deterministic at GOMAXPROCS=1 or no cases ran)")
+		return 2
+	}
+	fmt.Println("selftest: ok")
+	return 0
+}
+
+// ---- race reports ---------------------------------------------------------------------------
+
+type raceReplay struct {
+	Property string   `json:"property"`
+	Engine   string   `json:"engine"` // "race"
+	Unit     string   `json:"unit"`
+	Seed     uint64   `json:"seed"`
+	Worker   int      `json:"worker"`
+	Workers  int      `json:"workers"`
+	BudgetS  int      `json:"budget_s"`
+	Failure  *failure `json:"failure"`
+	Note     string   `json:"note"`
+}
+
+var raceFrameRe = regexp.MustCompile(`(?m)^\s+(github\.com/synnaxlabs/[^\s(]+)\(`)
+
+// scanRaces looks for race detector reports in the worker logs whose stacks include
+// repository code outside the injected harness files and that no recorded known finding
+// explains. The signature is the set of top repository frames of the report.
+func scanRaces(prop, outDir string, workers int) *raceReplay {
+	known := loadKnown()
+	for w := 0; w < workers; w++ {
+		b, err := os.ReadFile(filepath.Join(outDir, fmt.Sprintf("worker-%d.log", w)))
+		if err != nil {
+			continue
+		}
+		parts := strings.Split(string(b), "WARNING: DATA RACE")
+		for _, rep := range parts[1:] {
+			if i := strings.Index(rep, "=================="); i >= 0 {
+				rep = rep[:i]
+			}
+			// top repo frame of each of the stacks (skip harness files)
+			var frames []string
+			for _, blk := range strings.Split(rep, "\n\n") {
+				lines := strings.Split(blk, "\n")
+				for i := 0; i+1 < len(lines); i++ {
+					m := raceFrameRe.FindStringSubmatch(lines[i] + "(")
+					if m == nil || !strings.Contains(lines[i], "synnaxlabs/") {
+						continue
+					}
+					if strings.Contains(lines[i+1], "zz_verif") {
+						continue
+					}
+					fn := strings.TrimSuffix(strings.TrimSpace(lines[i]), "()")
+					if j := strings.LastIndex(fn, "/"); j >= 0 {
+						fn = fn[j+1:]
+					}
+					frames = append(frames, fn)
+					break
+				}
+			}
+			if len(frames) == 0 {
+				continue // a race entirely inside harness or third-party code is not judged
+			}
+			seen := map[string]bool{}
+			var uniq []string
+			for _, f := range frames {
+				if !seen[f] {
+					seen[f] = true
+					uniq = append(uniq, f)
+				}
+			}
+			sort.Strings(uniq)
+			sig := strings.Join(uniq, "|")
+			isKnown := false
+			for _, k := range known {
+				if k.Status != "known" || (k.Class != "" && k.Class != "data-race") {
+					continue
+				}
+				applies := k.Property == prop
+				for _, a := range k.AlsoFor {
+					if a == prop {
+						applies = true
+					}
+				}
+				if applies {
+					if re, err := regexp.Compile(k.SigRe); err == nil && re.MatchString(sig) {
+						isKnown = true
+					}
+				}
+			}
+			if isKnown {
+				continue
+			}
+			return &raceReplay{Property: prop, Engine: "race", Worker: w,
+				Failure: &failure{Class: "data-race", Sig: sig, Msg: "WARNING: DATA RACE" + tail(rep, 80)},
+				Note:    "race-detector report; re-running the same seed/worker under -race re-executes the same accesses (the -race tier does not replay exactly)"}
+		}
+	}
+	return nil
 }
